@@ -559,6 +559,21 @@ impl<'tcx> Ex<'tcx> {
                         m.chars().take_while(|c| c.is_alphanumeric() || *c == '_').collect();
                     tv.push(("msg", J::S(short)));
                     tv.push(("msgfull", J::S(m.chars().take(120).collect())));
+                    match &**msg {
+                        mir::AssertKind::BoundsCheck { len, index } => {
+                            tv.push(("len", self.operand(body, did, len)));
+                            tv.push(("index", self.operand(body, did, index)));
+                        }
+                        mir::AssertKind::Overflow(op, a, b) => {
+                            tv.push(("binop", J::S(format!("{:?}", op))));
+                            tv.push(("a", self.operand(body, did, a)));
+                            tv.push(("b", self.operand(body, did, b)));
+                        }
+                        mir::AssertKind::DivisionByZero(a) | mir::AssertKind::RemainderByZero(a) | mir::AssertKind::OverflowNeg(a) => {
+                            tv.push(("a", self.operand(body, did, a)));
+                        }
+                        _ => {}
+                    }
                     tv.push(("t", bbj(target)));
                 }
                 TerminatorKind::Drop { place, target, .. } => {
